@@ -1,0 +1,7 @@
+//go:build !verif
+
+package db
+
+// verifWrite is a call-out placed before every write to the underlying leveldb made by ldbManager.Add, ldbManager.Pop
+// and ApplyPatch on a raw leveldb. It compiles to nothing unless the `verif` build tag is set.
+func verifWrite(string) {}
